@@ -1,9 +1,10 @@
 import os, sys
 sys.path.insert(0, os.path.join(os.path.dirname(os.path.abspath(__file__)), '..', 'lib'))
-import vlib, flow
+import vlib, flow, gen_trans
 
 H = os.path.join(vlib.ROOT, 'harness/kernel/device/acpi')
 vlib.register_const_dump('kernel', 'device/acpi', os.path.join(H, 'zz_verif_consts_test.go'))
+gen_trans.register('acpi_driver.json')   # Go -> Gallina translation of validTable / locateRSDT (Gen/Trans_acpi_driver.v, used by Acpi/DriverTrans.v; feature "acpi" of gen/gotrans/ext_acpi.go)
 
 PAGE = 4096
 # Host address zones the images live in (all free in the go test process, see harness):
@@ -541,7 +542,7 @@ def stress_battery(rng, budget):
 
 class C14(flow.Spec):
     prop = 'C14'
-    props_files = ['theories/Props/C14.v', 'theories/Props/C14_examples.v']
+    props_files = ['theories/Props/C14.v', 'theories/Props/C14_examples.v', 'theories/Props/C14_trans.v', 'theories/Props/C14_trans_examples.v']
     model_targets = ['theories/Acpi/Model.vo']
     pkg = 'device/acpi'
     harness = [os.path.join(H, 'zz_verif_c14_test.go')]
@@ -561,6 +562,10 @@ class C14(flow.Spec):
         'the code selects the pointer by the root table\'s header revision and reads Ext.Dsdt at the Go struct offset (152, ACPI X_DSDT is at 140), which misses the DSDT for three input classes recorded as known findings '
         '(c14:dsdt:acpi-layout-fadt:rootrev-ge2, c14:dsdt:only32-fadt:rootrev-ge2, c14:dsdt:only64-fadt:rootrev-lt2); FADTs whose two pointers name different tables are agreement only; the model and the theorems (fadt_dsdt) follow the code',
         'kfmt renders the log lines (C15); the harness parses them back into (signature, address, length) events; printTableInfo lines are compared sorted (Go map order)',
+        'validTable and locateRSDT: the hand-written model is proved equal to the Gallina term gen/gotrans regenerates from acpi.go on every run (Props/C14_trans.v), for every memory image with '
+        'byte-valued cells, every search window / alignment that does not wrap, every mapFn failure and fuel above pages + slots + 66; trusted for that tie: the translator incl. ext_acpi.go '
+        '(struct-pointer field reads as loads at the Go compiler\'s offsets, the syntax-tree rewrites for `continue label` from the inner loop and for the deferred closure), Lib/GoOps.v + Lib/GoStruct.v, '
+        'the pairing field -> offset constant in gen/gotrans/acpi_driver.json, T.ld_of (a load = little-endian read of the model\'s bytes); a panic inside the body skips the deferred unmapping in the translation (outcome GPanic either way)',
     ]
     partial = []
 
